@@ -276,7 +276,23 @@ def _check_main(ctx, rep: Report):
         bad.append("the key parameter is added even when no key is configured")
     ifexps = [n for n in ast.walk(b) if isinstance(n, ast.IfExp) and "has_default" in ast.unparse(n.test)]
     if not ifexps:
-        bad.append("the key default no longer depends on has_default")
+        # statement form: <var> = inspect.Parameter.empty ... if <spec>.has_default: <var> = MISSING
+        from .c16 import _guards_of
+        var = None
+        for n_ in ast.walk(b):
+            if isinstance(n_, ast.Call) and isinstance(n_.func, ast.Attribute) and n_.func.attr == "with_arg" and n_.args \
+                    and ast.unparse(n_.args[0]) == "spec_class_key":
+                for k_ in n_.keywords:
+                    if k_.arg == "default" and isinstance(k_.value, ast.Name):
+                        var = k_.value.id
+        assigns = [n_ for n_ in walk_own(b) if isinstance(n_, ast.Assign) and len(n_.targets) == 1 and ast.unparse(n_.targets[0]) == var]
+        opt = [n_ for n_ in assigns if ast.unparse(n_.value) == "MISSING"]
+        req = [n_ for n_ in assigns if "empty" in ast.unparse(n_.value)]
+        ok_stmt = bool(var) and bool(opt) and bool(req) and all(
+            any("has_default" in g_ and not g_.startswith("not (") for g_ in _guards_of(b, n_)) for n_ in opt) \
+            and not any(any("has_default" in g_ and not g_.startswith("not (") for g_ in _guards_of(b, n_)) for n_ in req)
+        if not ok_stmt:
+            bad.append("the key default no longer depends on has_default")
     else:
         ie = ifexps[0]
         pos = not (isinstance(ie.test, ast.UnaryOp) and isinstance(ie.test.op, ast.Not))
